@@ -356,6 +356,35 @@ func c04Eval(r *hx.Run, cs lfCase) {
 		return
 	}
 	_ = vals
+	// model correspondence: the Lean port of the label bookkeeping against the real sources, and the Lean may-semantics
+	// against the label sets the engine returned
+	used := map[string]bool{}
+	if ej, ok := lfConvert(node, used); ok {
+		b, _ := json.Marshal(ej)
+		var impl []string
+		for _, s := range srcs {
+			impl = append(impl, fmt.Sprintf("i=%s e=%s g=%s f=%v", lfSortedList(s.IncludedLabels), lfSortedList(s.ExcludedLabels), lfSortedList(s.GuaranteedLabels), s.FixedLabels))
+		}
+		r.Op("lfanalyse\t"+string(b), strings.Join(impl, ";"))
+		if len(res) > 0 {
+			for _, sr := range cs.Series {
+				for l := range sr {
+					if l != "__name__" {
+						used[l] = true
+					}
+				}
+			}
+			var sets []string
+			for _, ls := range res {
+				var names []string
+				ls.Range(func(l labels.Label) { names = append(names, l.Name) })
+				sets = append(sets, strings.Join(names, ","))
+			}
+			r.Op(fmt.Sprintf("lfpossible\t%s\t%s\t%s", strings.Join(hx.SortedKeys(used), ","), string(b), strings.Join(sets, ";")), "ok")
+		}
+	} else {
+		r.Count("outside-model-fragment")
+	}
 	live := 0
 	for _, s := range srcs {
 		if !s.IsDead {
@@ -477,6 +506,14 @@ func c12Eval(r *hx.Run, cs lfCase) {
 	}
 	r.Case(cs.Expr+fmt.Sprint(cs.Series), len(dead) > 0)
 	r.Count(fmt.Sprintf("dead-sources:%d", min(len(dead), 3)))
+	if ej, ok := lfConvert(node, map[string]bool{}); ok {
+		b, _ := json.Marshal(ej)
+		var impl []string
+		for _, s := range srcs {
+			impl = append(impl, fmt.Sprintf("i=%s e=%s g=%s f=%v", lfSortedList(s.IncludedLabels), lfSortedList(s.ExcludedLabels), lfSortedList(s.GuaranteedLabels), s.FixedLabels))
+		}
+		r.Op("lfanalyse\t"+string(b), strings.Join(impl, ";"))
+	}
 	if len(dead) == 0 {
 		return
 	}
@@ -537,12 +574,37 @@ func c12Eval(r *hx.Run, cs lfCase) {
 	r.Sample(map[string]any{"expr": cs.Expr, "dead": len(dead)})
 }
 
+// canJoin on random sources and matchings: the real function (hook VerifCanJoin) against the Lean port
+func c12CanJoin(r *hx.Run) {
+	rr := r.Rng
+	names := []string{"a", "b", "c", "__name__"}
+	pick := func() []string {
+		var out []string
+		for _, n := range names {
+			if rr.Intn(3) == 0 {
+				out = append(out, n)
+			}
+		}
+		return out
+	}
+	mk := func() (utils.Source, map[string]any) {
+		s := utils.Source{IncludedLabels: pick(), ExcludedLabels: pick(), GuaranteedLabels: pick(), FixedLabels: rr.Intn(2) == 0}
+		return s, map[string]any{"i": s.IncludedLabels, "e": s.ExcludedLabels, "g": s.GuaranteedLabels, "f": s.FixedLabels}
+	}
+	ls, lj := mk()
+	rs, rj := mk()
+	vm := &promParser.VectorMatching{On: rr.Intn(2) == 0, MatchingLabels: pick(), Card: hx.Pick(rr, []promParser.VectorMatchCardinality{promParser.CardOneToOne, promParser.CardManyToOne, promParser.CardOneToMany, promParser.CardManyToMany})}
+	b, _ := json.Marshal(map[string]any{"on": vm.On, "m": vm.MatchingLabels, "l": lj, "r": rj})
+	r.Op("canjoin\t"+string(b), fmt.Sprint(utils.VerifCanJoin(ls, rs, vm)))
+}
+
 func runC12(r *hx.Run, replay string) {
 	if replay != "" {
 		c12Eval(r, lfReplay(replay))
 		return
 	}
 	for i := 0; i < r.N; i++ {
+		c12CanJoin(r)
 		g := &lfGen{rr: r.Rng, c12: true}
 		expr := g.vec(1 + r.Rng.Intn(3))
 		for k := 0; k < 3; k++ {
